@@ -42,9 +42,26 @@ Theorem C07_effects_once_per_call : forall n d i, (i < nvars d)%nat -> (nvars d 
 Proof. exact effects_once_per_call. Qed.
 Print Assumptions C07_effects_once_per_call.
 
-(* NOT proved: that lift.vjp / jvp route through lift.pack as the model says and that jax differentiates polynomials
-   symbolically; the custom_vjp clauses (forward value unchanged, user rule used when differentiating) are decided per
-   run by the correspondence only. *)
+(* nn.custom_vjp (custom_vjp_model: the user's backward rule returns rv / ri times the true cotangents): the forward value is
+   that of the original function whatever the rule; differentiation sees the rule, for exactly the variables of the
+   collections grad_vars selects and for every input *)
+Theorem C07_custom_vjp_forward_unchanged : forall f d rv ri ct, fst (fst (custom_vjp_model f d rv ri ct)) = primal d.
+Proof. exact custom_vjp_forward. Qed.
+Print Assumptions C07_custom_vjp_forward_unchanged.
+Theorem C07_custom_vjp_routing : forall f d rv ri ct, map fst (snd (fst (custom_vjp_model f d rv ri ct))) = selected f d.
+Proof. exact custom_vjp_routing. Qed.
+Print Assumptions C07_custom_vjp_routing.
+Theorem C07_custom_vjp_rule_on_variables : forall f d rv ri ct i g,
+  In (i, g) (snd (fst (custom_vjp_model f d rv ri ct))) -> g = rv * (ct * partial d i).
+Proof. exact custom_vjp_rule_vars. Qed.
+Print Assumptions C07_custom_vjp_rule_on_variables.
+Theorem C07_custom_vjp_rule_on_inputs : forall f d rv ri ct k, (k < nins d)%nat ->
+  nth k (snd (custom_vjp_model f d rv ri ct)) 0 = ri * (ct * partial d (nvars d + k)).
+Proof. exact custom_vjp_rule_inputs. Qed.
+Print Assumptions C07_custom_vjp_rule_on_inputs.
+
+(* NOT proved: that lift.vjp / jvp / custom_vjp route through lift.pack as the model says and that jax differentiates
+   polynomials symbolically (tied per run by the correspondence). *)
 Example C07_example :
   let d := mkD [0%N; 1%N; 5%N] [3; 4; 0; 2; 5] (GAdd (GMul (GMul (GVar 0) (GVar 0)) (GVar 3)) (GAdd (GMul (GMul (GVar 0) (GVar 1)) (GVar 4)) (GVar 2))) [2%nat] in
   vjp_model (FSet [0; 1]%N) d 10 = (79, [(0%nat, 320); (1%nat, 150)], [90; 120]) /\
